@@ -132,10 +132,15 @@ def absSample {n : Nat} (s : Sample n Float) : Sample n Float :=
 def buildQ (n : Nat) (ss : Array (Sample n Float)) : QEF n Float :=
   ss.foldl (fun q s => freeze (q.insert Float.isFinite s)) (QEF.empty n)
 
+/-- equal bits, or both non-finite (NaN vs ±inf depends on Eigen's evaluation order once
+    something overflowed), or within the tolerance -/
+def closeF (x y tol : Float) : Bool :=
+  sameF x y || (!x.isFinite && !y.isFinite) || (x - y).abs ≤ tol
+
 def arraysClose (a b tol : Array Float) : Option Nat := Id.run do
   for i in [0:a.size] do
     let x := a.getD i 0; let y := b.getD i 0; let t := tol.getD i 0
-    if !(sameF x y || (x - y).abs ≤ t) then return some i
+    if !closeF x y t then return some i
   return none
 
 def arraysSame (a b : Array Float) : Option Nat := Id.run do
@@ -160,6 +165,40 @@ def tieStats {n : Nat} (cand : Nat → Solution n Float) (r : Region n Float) : 
     if !r.contains out.position then out := { out with error := QOrd.inf } else break
   return (eqs, tbs)
 
+/-- Gaussian elimination with partial pivoting on a `k×k` system; `none` if a pivot is zero /
+    non-finite or the pivots spread over more than 4 decades (then Eigen's pseudo-inverse and an
+    exact solve may legitimately differ). -/
+def gauss (k : Nat) (A : Fin k → Fin k → Float) (b : Fin k → Float) : Option (Array Float) := Id.run do
+  let mut M : Array (Array Float) := (Array.ofFn fun i : Fin k => (Array.ofFn fun j : Fin k => A i j).push (b i))
+  let mut pmin : Float := 1.0 / 0.0
+  let mut pmax : Float := 0
+  for col in [0:k] do
+    let mut best := col
+    for r in [col:k] do
+      if ((M.getD r #[]).getD col 0).abs > ((M.getD best #[]).getD col 0).abs then best := r
+    let rb := M.getD best #[]
+    let rc := M.getD col #[]
+    M := (M.set! best rc).set! col rb
+    let pv := rb.getD col 0
+    if !(pv.abs > 0) || !pv.isFinite then return none
+    pmin := if pv.abs < pmin then pv.abs else pmin
+    pmax := if pv.abs > pmax then pv.abs else pmax
+    let prow := rb.map (· / pv)
+    M := M.set! col prow
+    for r in [0:k] do
+      if r != col then
+        let row := M.getD r #[]
+        let f := row.getD col 0
+        M := M.set! r ((Array.range (k + 1)).map fun j => row.getD j 0 - f * prow.getD j 0)
+  if !(pmin / pmax ≥ 1e-4) then return none
+  return some ((Array.range k).map fun i => (M.getD i #[]).getD k 0)
+
+/-- an (almost) exact inner solver for the model: Gaussian elimination; rank 0 = "not judged" -/
+def gaussSolver : Solver Float := fun m A b t =>
+  match gauss (m + 1) A b with
+  | some x => { value := fun i => x.getD i.val 0, rank := 1 }
+  | none => { value := t, rank := 0 }
+
 def checkCase (c : Case) : List String := Id.run do
   let n := c.n
   let tag := s!"case {c.id}"
@@ -178,7 +217,7 @@ def checkCase (c : Case) : List String := Id.run do
   let tval := c.target.getD n 0
   if c.targetDefault then
     let okT := (List.finRange n).all (fun i => sameF (region.center i) (tpos i))
-      && sameF q.averageDistanceValue tval
+      && sameF q.defaultTargetValue tval
     out := out ++ [if okT then s!"ok target {tag}" else s!"MISMATCH target {tag}"]
   -- insert: model matrices from the raw samples
   let ss := c.samples.map (sampleOf n)
@@ -226,7 +265,7 @@ def checkCase (c : Case) : List String := Id.run do
     let em := q.error s.position s.value
     let mg := magV q (snoc s.position s.value)
     let tol := 64 * eps * mg
-    if !(sameF em s.error || (em - s.error).abs ≤ tol) then
+    if !closeF em s.error tol then
       candBad := candBad ++ [s!"error nb={nb} model={hex64 em} real={hex64 s.error}"]
     else if mg > 0 && (em - s.error).abs / (eps * mg) > worst then
       worst := (em - s.error).abs / (eps * mg)
@@ -236,12 +275,39 @@ def checkCase (c : Case) : List String := Id.run do
     let s := f.toModel n
     let em := q.error s.position s.value
     let mg := magV q (snoc s.position s.value)
-    if !(sameF em s.error || (em - s.error).abs ≤ 64 * eps * mg) then
+    if !closeF em s.error (64 * eps * mg) then
       candBad := candBad ++ [s!"error full model={hex64 em} real={hex64 s.error}"]
     if (List.finRange n).any (fun i => s.constrained i) then candBad := candBad ++ ["flag full"]
   | none => candBad := candBad ++ ["no-full"]
   out := out ++ [if candBad.isEmpty then s!"ok cand {tag} n={nc} worst_err_ratio={worst}"
                  else s!"MISMATCH cand {tag} {" ; ".intercalate (candBad.take 4)}"]
+  -- the whole `solveConstrained` model (reduced system, `liftIdx`, unpacking loop `assemblePos`)
+  -- run with an exact-ish solver must land on the real candidate when the reduced system is
+  -- well conditioned
+  let mut asmBad : List String := []
+  let mut judged := 0
+  let mut worstA : Float := 0
+  let scale0 := (c.box.foldl (fun a x => if x.abs > a then x.abs else a) 0) +
+    (c.target.foldl (fun a x => if x.abs > a then x.abs else a) 0)
+  for nb in [0:nc] do
+    let real := (c.cands.getD nb default).toModel n
+    if (gauss ((freeAxes n nb).length + 1) (q.reducedAtA nb) (q.reducedAtB shrunkReal nb)).isSome
+        && real.value.isFinite && (List.finRange n).all (fun i => (real.position i).isFinite) then
+      let mc := q.solveConstrained gaussSolver shrunkReal nb tpos tval
+      judged := judged + 1
+      let cmp := fun (what : String) (a b : Float) =>
+        let sc := scale0 + a.abs + b.abs + 1e-300
+        let d := (a - b).abs / sc
+        (d, if d ≤ 1e-6 then none else some s!"{what} nb={nb} model={a} real={b}")
+      for i in List.finRange n do
+        let (d, bad) := cmp s!"axis={i.val}" (mc.position i) (real.position i)
+        if d > worstA then worstA := d
+        match bad with | some m => asmBad := asmBad ++ [m] | none => pure ()
+      let (d, bad) := cmp "value" mc.value real.value
+      if d > worstA then worstA := d
+      match bad with | some m => asmBad := asmBad ++ [m] | none => pure ()
+  out := out ++ [if asmBad.isEmpty then s!"ok assemble {tag} judged={judged} of={nc} worst_e12={worstA * 1e12}"
+                 else s!"MISMATCH assemble {tag} {" ; ".intercalate (asmBad.take 3)}"]
   -- selection logic on the real candidates
   match c.full, c.result with
   | some f, some r =>
@@ -274,7 +340,7 @@ def checkCase (c : Case) : List String := Id.run do
     -- public `error()` at the returned point is the model's error on the real matrices
     let em := q.error real.position real.value
     let mg := magV q (snoc real.position real.value)
-    out := out ++ [if sameF em c.errat || (em - c.errat).abs ≤ 64 * eps * mg then s!"ok errat {tag}"
+    out := out ++ [if closeF em c.errat (64 * eps * mg) then s!"ok errat {tag}"
                    else s!"MISMATCH errat {tag} model={hex64 em} real={hex64 c.errat}"]
   | _, _ => out := out ++ [s!"MISMATCH select {tag} missing-lines"]
   return out
